@@ -320,8 +320,8 @@ func run(c *vf.Ctx) {
 	sort.Strings(branches)
 	g.Run(base, "checkout", "-q", "-f", branches[0])
 
-	nseq := c.N(80, 400)
-	for i := 0; i < nseq; i++ {
+	nseq := c.N(80, 300)
+	vf.Parallel(nseq, 8, func(i int) {
 		r := c.Rand("seq", i)
 		steps := genSeq(r, branches, ids)
 		// make sure the last step is a go-git operation (the one whose fault points are enumerated)
@@ -329,7 +329,7 @@ func run(c *vf.Ctx) {
 			steps = steps[:len(steps)-1]
 		}
 		if len(steps) == 0 {
-			continue
+			return
 		}
 		kinds := make([]string, len(steps))
 		external := false
@@ -386,14 +386,14 @@ func run(c *vf.Ctx) {
 		}
 		if !ok {
 			os.RemoveAll(work)
-			continue
+			return
 		}
 		// 2. enumerate fault points of the last step
 		ks := make([]int, 0, K)
 		for k := 0; k < K; k++ {
 			ks = append(ks, k)
 		}
-		if maxK := c.N(16, 60); len(ks) > maxK {
+		if maxK := c.N(16, 40); len(ks) > maxK {
 			stepK := float64(len(ks)) / float64(maxK)
 			var keep []int
 			for j := 0; j < maxK; j++ {
@@ -462,14 +462,14 @@ func run(c *vf.Ctx) {
 			os.RemoveAll(d2)
 		}
 		os.RemoveAll(work)
-	}
+	})
 	c.Extra("git_invocations", gitx.Calls.Load())
 	c.Floor("sequences", c.SeenCount("step_kinds"), 12)
-	c.Floor("invariant checks after fault-free steps", c.Counter("invariant_checks"), c.N(250, 1100))
-	c.Floor("faulted steps", c.Counter("faulted_steps"), c.N(600, 5000))
-	c.Floor("faults actually injected", c.Counter("faults_injected"), c.N(500, 4000))
-	c.Floor("faulted steps that returned an error", c.Counter("faulted_steps_that_returned_error"), c.N(150, 1200))
-	c.Floor("external rewrites of the index by git", c.Counter("external_rewrites"), c.N(25, 100))
+	c.Floor("invariant checks after fault-free steps", c.Counter("invariant_checks"), c.N(250, 800))
+	c.Floor("faulted steps", c.Counter("faulted_steps"), c.N(600, 3500))
+	c.Floor("faults actually injected", c.Counter("faults_injected"), c.N(500, 2800))
+	c.Floor("faulted steps that returned an error", c.Counter("faulted_steps_that_returned_error"), c.N(150, 800))
+	c.Floor("external rewrites of the index by git", c.Counter("external_rewrites"), c.N(25, 75))
 	c.Assume("external rewrites are done by real git commands, which change the index's size or mtime (the property's stated domain)")
 	c.Assume("fault = EIO returned once by one fs operation on .git/index or a worktree path during the last step")
 }
